@@ -51,3 +51,5 @@ func main() {
 	cov := fn(r)
 	os.Exit(r.Finish(cov))
 }
+
+func osExit(code int) { os.Exit(code) }
